@@ -70,6 +70,12 @@ static inline int p2f_name_ok(const unsigned char *b, unsigned o)
 	return 1;
 }
 
+/* Encrypted directories (fscrypt): an encrypted file name is ciphertext padded to at least one cipher block,
+ * FS_CRYPTO_BLOCK_SIZE = 16 bytes (fscrypt_fname_encrypted_size(): max(len, FS_CRYPTO_BLOCK_SIZE) rounded to the
+ * padding policy) */
+#define P2F_ENCRYPTED_NAME_MIN 16u
+#define P2F_ENCRYPTED_NAME_OK(b, o) (P2F_NL(b, o) >= P2F_ENCRYPTED_NAME_MIN)
+
 /* file type code of an i_mode (S_IFMT values of the inode format: 0x1000 FIFO, 0x2000 CHR, 0x4000 DIR,
  * 0x6000 BLK, 0x8000 REG, 0xA000 LNK, 0xC000 SOCK); anything else has no type code (0 = Unknown) */
 static inline unsigned p2f_type_of_mode(unsigned mode)
